@@ -34,7 +34,7 @@ OK=0; [ $W -eq 0 ] && [ $B -eq 0 ] && [ $T -eq 0 ] && [ $D -ne 0 ] && OK=1
 res "confirmed=$OK"
 # run the check against /repo with the patch applied
 cd /repo && git status --short | grep -v '^??' | grep . && { echo "/repo not clean"; exit 2; }
-git -C /repo apply "$TMP/seed/patch.diff"
+git -C /repo apply "$TMP/seed/patch.diff" || res "PATCH DOES NOT APPLY TO CURRENT /repo (port it)"
 (cd /verif && timeout 1500 bin/vcheck run "$ID" --tier quick > "$TMP/check.txt" 2>&1); C=$?
 git -C /repo checkout -- .
 res "check $ID quick with patch: exit $C (1 = detected)"
